@@ -27,6 +27,8 @@ contract(CONN + '.send_headers', props=['C02', 'C08', 'C09', 'C10', 'C13', 'C23'
         ('compression-context-advanced-by-this-block-only', 'g_enc == old(g_enc) or g_enc == old(g_enc) + 1', ['C13']),
         ('interim-responses-only-before-the-final-response', 'implies(not new and hdr_is_informational(headers) and old(%s.client) is False, not old(%s.headers_sent) and not end_stream)' % (SM, SM), ['C08']),
         ('request-authority-captured-once', 'implies(not new and old(%s._authority) is not None, %s._authority == old(%s._authority))' % (SID, SID, SID), ['C24']),
+        # C16: a request stays a HEAD request when later blocks (trailers) carry no :method
+        ('request-method-kept-by-blocks-without-a-method', 'implies(not new and not hdr_has_method(headers), %s.request_method == old(%s.request_method))' % (SID, SID), ['C16']),
         ('trailers-carry-end-stream', 'implies(%s.trailers_sent and not old(%s.trailers_sent if (stream_id in self.streams) else False), end_stream)' % (SM, SM), ['C08']),
         ('not-closed', 'cst != C_CLOSED', ['C19']),
         ('GI', 'GI(self)')],
@@ -67,7 +69,7 @@ contract(CONN + '.push_stream', props=['C22', 'C13', 'C02', 'C09', 'C19', 'C29',
         ('parent-open-or-half-closed-remote', 'pst == OPEN or pst == HC_REMOTE', ['C22', 'C06']),
         ('parent-accepts-push', 'pk == K_OK', ['C22', 'C06']),
         ('promised-id-rules', 'promised_stream_id % 2 == 0 and promised_stream_id > wm_out and 1 <= promised_stream_id and promised_stream_id <= 2147483647 and self.highest_outbound_stream_id == promised_stream_id', ['C22', 'C09', 'C02']),
-        ('inbound-watermark-kept', 'self.highest_inbound_stream_id == old(self.highest_inbound_stream_id)', ['C09']),
+        ('inbound-watermark-kept', 'self.highest_inbound_stream_id == old(self.highest_inbound_stream_id)', ['C09', 'C18']),
         ('promised-stream-reserved', '(promised_stream_id in self.streams) and %s.state == StreamState.RESERVED_LOCAL and %s.client is False' % (PSM2, PSM2), ['C22', 'C06']),
         ('parent-state-kept', '%s.state.value == pst' % SM, ['C06']),
         ('header-block-shape', 'header_block_ok(g_out, n0, "PushPromiseFrame", stream_id, self.max_outbound_frame_size)', ['C02']),
@@ -86,6 +88,8 @@ contract(CONN + '.push_stream', props=['C22', 'C13', 'C02', 'C09', 'C19', 'C29',
         ('compression-context-untouched', 'g_enc == old(g_enc)', ['C13']),
         ('no-stream-reserved', 'all(k in old(self.streams) for k in self.streams)', ['C22', 'C09']),
         ('watermarks-kept', 'self.highest_outbound_stream_id == wm_out and self.highest_inbound_stream_id == old(self.highest_inbound_stream_id)', ['C22', 'C09']),
+        # C18: the GOAWAY of a later connection error names highest_inbound_stream_id, which only frames of the peer move
+        ('peer-watermark-untouched-by-a-refused-push', 'self.highest_inbound_stream_id == old(self.highest_inbound_stream_id)', ['C18']),
         ('raising-call-keeps-stream-state', 'implies(exists, %s.state.value == pst)' % SM, ['C06', 'C10']),
     ],
     canary='len(g_out) == n0')
